@@ -29,10 +29,15 @@
 //                       created through callback_await_alloc<Policy, future<int>&> with callbacks of those sizes,
 //          "obs":"full"|"alloc"   alloc: reduced projection {"bad","dels","live","news","where":[..]} (used by C20)}
 // steps:  Create(t,c) CreateB(t,c) Complete(t,f) New(t) Del(t) Store(t) Teardown
+//         Prepare CreateP(t,c,i)    stack_storage: a storage constructed and given its alloca block ahead of use
+//         CreateThrow(t,c)          the factory of the attached object throws (always with the plain bodies)
 //         NewObj MoveCtor MoveAssign(s,d) Drop(o)      a second storage object; construction / assignment by move
 //         OwnerResize(k) OwnerShrink OwnerClear OwnerMoveOut OwnerSwap(k)   what the owner of the buffer does to it
 // projection: {"bad":[...harness-side check failures, expected empty...],"busy","dels","fr":[{..}],
-//              "heap":[size per slot],"news","objs":[{"st","ptr","cap","inv","fac"} x2],"pend":{t:..},"torn"}
+//              "heap":[size per slot],"news","objs":[{"st","ptr","cap","inv","fac"} x2],"pend":{t:..},"torn",
+//              "prep":[size each prepared stack storage asked for],"nthrow":factory exceptions that reached the creator}
+// -DSTORAGE_NO_STACK_PRIVATE: build without the probes of stack_storage's private members (when their
+// representation changed): the cross-check of its bookkeeping against the harness's own is dropped
 //   fr[i]: c, o (storage object), live, where, slot, blk, tr (what the base keeps behind the frame), eo (attached
 //          object), asz (size the base's alloc got), dz ("live" | "same" | "alloc:<a>/dealloc:<d>"), ct, dt
 // Memory a policy returns that cannot hold the frame (null, released, too small) is recorded in `bad` and the
@@ -44,6 +49,7 @@
 //
 // storage_replay --probe-grow   prints the order in which reusable_storage::alloc grows
 // storage_replay --sizes        prints the observed frame sizes
+// storage_replay --probe-throw  does promise_extra_storage::alloc give the block back when the factory throws?
 #include <cocls/future.h>
 #include <cocls/async.h>
 #include <cocls/coro_storage.h>
@@ -282,12 +288,14 @@ struct FrameRec {
     std::uint32_t serial = 0;
     int cidx = 0;                     // index of the creation (FrameRef / future / promise) it came from
     int o = 1;                        // storage object it was created on
+    int prep = 0;                     // stack: index of the storage prepared ahead it was created on (0: one of its own)
     unsigned char *orig = nullptr;    // what the policy returned, when the harness had to relocate the frame
     bool base_reloc = false;          // ... already below the attached-object layer
     std::size_t basz = 0, bdsz = 0;   // sizes the base policy's alloc / dealloc were called with
     bool bdealloc = false;
 };
 struct FrameRef { FrameRec *r = nullptr; int cls = 0; int thread = 0; int idx = 0; int o = 1; };
+struct FactoryError {};              // what the factory of the attached object throws when told to
 
 inline unsigned char pat(int id, std::size_t i) { return (unsigned char) (id * 41 + i * 7 + 3); }
 
@@ -473,10 +481,12 @@ struct RProbe : cocls::reusable_storage {
 struct MProbe : cocls::reusable_storage_mtsafe {
     static auto busy_mp() { return &MProbe::_busy; }
 };
+#ifndef STORAGE_NO_STACK_PRIVATE
 struct SProbe : cocls::stack_storage {
     static auto asize_mp() { return &SProbe::_alloc_size; }
     static auto aptr_mp() { return &SProbe::_alloc_ptr; }
 };
+#endif
 
 struct Cmd { enum K { none, create, complete, quit } k = none; int c = 0; int f = 0; };
 
@@ -498,6 +508,11 @@ struct World {
     std::unique_ptr<A> stor_copy;               // placement / buffer: a copy of the storage object, used alternately
     bool use_copy = false;
     std::deque<A> stack_storages;               // stack: one storage object per call (as scheduler.h does)
+    struct PrepRec { A *st; unsigned char *ab; std::size_t asz; unsigned char *guard; };
+    std::vector<PrepRec> preps;                 // stack: storages prepared ahead of their use
+    A *last_stack_obj = nullptr;                // stack: the storage object of the newest frame
+    bool throw_next = false;                    // the factory throws at its next call
+    int nthrown = 0;                            // FactoryError caught by the creator
     std::size_t state = 0;                      // stack: the shared size_t
     unsigned char *cur_abuf = nullptr;          // stack: buffer of the creation in progress
     std::size_t cur_asize = 0;
@@ -543,11 +558,21 @@ struct World {
         if constexpr (P == Pol::stack) return nullptr;
         else if constexpr (EX) {
             World *w = this;
-            return std::make_unique<A>([w] { return Extra(w->next_serial++); });
+            return std::make_unique<A>([w] { return w->factory(); });
         }
         else if constexpr (P == Pol::placement) return std::make_unique<A>(static_cast<void *>(place));
         else if constexpr (P == Pol::buffer) return std::make_unique<A>(*buf);
         else return std::make_unique<A>();
+    }
+    Extra factory() {
+        if (throw_next) { throw_next = false; throw FactoryError(); }
+        return Extra(next_serial++);
+    }
+    A &new_stack_storage() {
+        alloc_pause np;
+        if constexpr (EX) { World *w = this; stack_storages.emplace_back([w] { return w->factory(); }); }
+        else if constexpr (P == Pol::stack) stack_storages.emplace_back(state);
+        return stack_storages.back();
     }
     void destroy_storage(std::unique_ptr<A> &u) {
         // the destructor runs as library code (it releases the policy's block); the object itself belongs to the harness
@@ -635,6 +660,13 @@ struct World {
                 return !r.base_reloc;
             }
         }
+        int t = 0;
+        if (p == w.pending_base_ptr && w.cur_ref[t] && !w.cur_ref[t]->r) {
+            // no frame came into being: the factory threw and the block goes back to the base policy
+            if (sz != w.pending_base_sz) w.note("throw-path-dealloc-size:" + std::to_string(w.pending_base_sz) + "/" + std::to_string(sz));
+            sz = w.pending_base_sz;
+            return !w.pending_reloc;
+        }
         w.note("base-dealloc-unknown");
         return true;
     }
@@ -676,6 +708,7 @@ struct World {
             r->usable = ok;
             invptr[ref.o - 1] = reinterpret_cast<unsigned char *>(st.inventory);
             invid[ref.o - 1] = r->id;
+            last_stack_obj = &st;
         }
     }
 
@@ -706,6 +739,21 @@ struct World {
         if (use_copy && stor_copy && (ncreate & 1)) st = stor_copy.get();
         lib_scope ls;
         create_on(*st, ref, c);
+    }
+
+    // the factory of the attached object throws: no frame, the exception must reach us
+    void create_throw_on(A &st, FrameRef &ref, int c) {
+        throw_next = true;
+        try {
+            lib_scope ls;
+            auto co = make_body<A, EX>(0, c, st, ref);      // (callback_await_coro is noexcept: plain bodies only)
+            note("factory-exception-lost");
+        } catch (const FactoryError &) {
+            nthrown++;
+        } catch (...) {
+            note("factory-exception-replaced");
+        }
+        throw_next = false;
     }
 
     void do_complete(int, int f) {
@@ -892,7 +940,7 @@ struct World {
                 fits = r.ptr == arena::base(slot) && foot <= avail;
             } else if (P == Pol::stack && r.abuf && r.ptr >= r.abuf && r.ptr < r.abuf + std::max<std::size_t>(r.asize, 1)) {
                 where = "stack";
-                f.set("slot", 0);
+                f.set("slot", r.prep);
                 f.set("blk", abs_size(r.asize));
                 fits = r.ptr + foot <= r.abuf + r.asize;
             } else if (P == Pol::placement && r.ptr == place) {
@@ -959,7 +1007,7 @@ struct World {
             long inv = 0;
             bool fac = ost[o] == "live";
             if constexpr (EX) {
-                A *cur = P == Pol::stack ? (stack_storages.empty() ? nullptr : &stack_storages.back()) : stor[o].get();
+                A *cur = P == Pol::stack ? last_stack_obj : stor[o].get();
                 if (ost[o] == "live" && invid[o] && cur && !(P == Pol::stack && o == 1))
                     inv = reinterpret_cast<unsigned char *>(cur->inventory) == invptr[o] ? invid[o] : -1;
                 if (ost[o] == "live" && P != Pol::stack) fac = static_cast<bool>(stor[o]->_factory);
@@ -969,6 +1017,10 @@ struct World {
             ol.push(x);
         }
         m.set("objs", ol);
+        J pl = J::list();
+        for (auto &pp : preps) pl.push(abs_size(pp.asz));
+        m.set("prep", pl);
+        m.set("nthrow", nthrown);
         bool busy = false;
         if constexpr (P == Pol::mtsafe) if (!torn) busy = ((*stor[0]).*MProbe::busy_mp()).verif_peek();
         m.set("busy", busy);
@@ -1022,6 +1074,8 @@ struct World {
         use_copy = copyable && sc.hdr.at("copy").as_bool(false);
         if (fam < 0 || fam >= NFAM || (mt && fam >= 2) || (EX && fam != 0 && fam != 3)) { rep.error(0, "bad shape family"); return; }
         F = FF[fam];
+        for (auto &stp : sc.steps) if (stp.name == "CreateThrow") fam = 0;     // see create_throw_on
+        F = FF[fam];
         if (fam >= 2) kill = "finish";
         warm_thread();
         int nthreads = mt ? 2 : 1;
@@ -1055,10 +1109,38 @@ struct World {
         for (std::size_t k = 0; k < sc.steps.size() && !stop; k++) {
             const Step &st = sc.steps[k];
             int t = tid_of(st.sarg(0));
-            if (st.name == "Create" || st.name == "CreateB") {
+            if (st.name == "Prepare" || st.name == "CreateP") {
+                if constexpr (P != Pol::stack) { rep.error(k, "prepared storages are stack_storage's"); break; }
+                else if (st.name == "Prepare") {
+                    // the storage is constructed from the shared state and given the block it asks for, now; used later
+                    A &sst = new_stack_storage();
+                    cocls::stack_storage &base = sst;
+                    unsigned char *guard = static_cast<unsigned char *>(alloca(64));
+                    memset(guard, 0xE7, 64);
+                    std::size_t asz = base;
+                    unsigned char *ab = static_cast<unsigned char *>(alloca(asz));
+                    memset(ab, 0x5A, asz);
+                    base = ab;
+                    alloc_pause np;
+                    preps.push_back(PrepRec{&sst, ab, asz, guard});
+                } else {
+                    int c = st.iarg(1), i = st.iarg(2);
+                    if (c < 1 || c > 3 || i < 1 || i > (int) preps.size()) { rep.error(k, "bad arguments"); break; }
+                    PrepRec &pp = preps[i - 1];
+                    FrameRef &ref = new_ref(0, c, 1);
+                    cur_abuf = pp.ab;
+                    cur_asize = pp.asz;
+                    {
+                        lib_scope ls;
+                        create_on(*pp.st, ref, c);
+                    }
+                    if (ref.r) { ref.r->abuf = pp.ab; ref.r->asize = pp.asz; ref.r->guard = pp.guard; ref.r->prep = i; }
+                }
+            } else if (st.name == "Create" || st.name == "CreateB" || st.name == "CreateThrow") {
                 int c = st.iarg(1);
                 int o = st.name == "CreateB" ? 2 : 1;
                 if (c < 1 || c > 3 || t < 0 || t >= nthreads || (o == 2 && !movable)) { rep.error(k, "bad arguments"); break; }
+                if (st.name == "CreateThrow" && (!EX || mt)) { rep.error(k, "no factory"); break; }
                 if (mt) {
                     if (pend_of(t) != "idle") { rep.diverge(k, "thread is not idle: " + pend_of(t) + " got=" + project(nthreads).dump()); break; }
                     mailbox[t] = Cmd{Cmd::create, c, 0};
@@ -1070,13 +1152,9 @@ struct World {
                     sched.step(t);
                 } else if constexpr (P == Pol::stack) {
                     // as scheduler.h:241-255 does: a storage object per call, buffer from alloca
+                    bool thr = st.name == "CreateThrow";
                     FrameRef &ref = new_ref(0, c, 1);
-                    {
-                        alloc_pause np;
-                        if constexpr (EX) { World *w = this; stack_storages.emplace_back([w] { return Extra(w->next_serial++); }); }
-                        else stack_storages.emplace_back(state);
-                    }
-                    A &sst = stack_storages.back();
+                    A &sst = new_stack_storage();
                     cocls::stack_storage &base = sst;
                     unsigned char *guard = static_cast<unsigned char *>(alloca(64));
                     memset(guard, 0xE7, 64);
@@ -1086,17 +1164,21 @@ struct World {
                     base = ab;                                               // stack_storage::operator=(void *)
                     cur_abuf = ab;
                     cur_asize = asz;
-                    {
+                    if (thr) create_throw_on(sst, ref, c);
+                    else {
                         lib_scope ls;
                         bool done = false;
                         if constexpr (copyable) if (use_copy && (ncreate & 1)) { A cp(sst); create_on(cp, ref, c); done = true; }   // a copy refers to the same buffer
                         if (!done) create_on(sst, ref, c);
                     }
                     if (ref.r) { ref.r->abuf = ab; ref.r->asize = asz; ref.r->guard = guard; }
+#ifndef STORAGE_NO_STACK_PRIVATE
                     if (asz != sst.*SProbe::asize_mp() || ab != sst.*SProbe::aptr_mp()) note("stack-storage-bookkeeping");
+#endif
                 } else {
                     if (!stor[o - 1]) { rep.diverge(k, "storage object does not exist got=" + project(nthreads).dump()); break; }
-                    do_create(0, c, o);
+                    if (st.name == "CreateThrow") { FrameRef &ref = new_ref(0, c, o); create_throw_on(*stor[o - 1], ref, c); }
+                    else do_create(0, c, o);
                 }
             } else if (st.name == "Complete") {
                 int f = st.iarg(1);
@@ -1189,6 +1271,18 @@ int main(int argc, char **argv) {
         }
         arena::events[arena::nevents] = 0;
         printf("GROW %s\n", !strcmp(arena::events, "DN") ? "delete_new" : !strcmp(arena::events, "ND") ? "new_delete" : "unknown");
+        return 0;
+    }
+    if (argc > 1 && !strcmp(argv[1], "--probe-throw")) {
+        // does promise_extra_storage::alloc give the block back to its base policy when the factory throws?
+        traced<cocls::promise_extra_storage<Extra, cocls::default_storage>> st([]() -> Extra { throw FactoryError(); });
+        arena::reset();
+        bool thrown = false;
+        {
+            lib_scope ls;
+            try { st.alloc(100); } catch (const FactoryError &) { thrown = true; }
+        }
+        printf("THROW %s\n", !thrown ? "lost" : arena::used() == 0 ? "released" : "kept");
         return 0;
     }
     if (argc > 1 && !strcmp(argv[1], "--sizes")) {
